@@ -159,6 +159,8 @@ impl<T: Copy> Cursor<T> {
 
         let mut new_value = self.consumer().load(Ordering::Acquire);
 
+        verif_failpoint!("cursor.acquire_producer.after_load");
+
         // Our cached copy has the size added so we also need to add the size here when comparing
         //
         // See `Self::init_producer` for more details
@@ -213,7 +215,11 @@ impl<T: Copy> Cursor<T> {
 
         debug_assert!(self.cached_len <= self.size);
 
+        verif_failpoint!("cursor.release_producer.before_publish");
+
         self.producer().fetch_add(len, Ordering::Release);
+
+        verif_failpoint!("cursor.release_producer.after_publish");
     }
 
     /// Acquires a cursor index for a consumer half
@@ -233,6 +239,8 @@ impl<T: Copy> Cursor<T> {
         }
 
         let new_value = self.producer().load(Ordering::Acquire);
+
+        verif_failpoint!("cursor.acquire_consumer.after_load");
 
         if self.cached_producer.0 == new_value {
             return filled;
@@ -283,7 +291,11 @@ impl<T: Copy> Cursor<T> {
 
         debug_assert!(self.cached_len <= self.size);
 
+        verif_failpoint!("cursor.release_consumer.before_publish");
+
         self.consumer().fetch_add(len, Ordering::Release);
+
+        verif_failpoint!("cursor.release_consumer.after_publish");
     }
 
     /// Returns the current consumer entries
